@@ -101,6 +101,17 @@ Example C04_three_ways :
   /\ u_hist whole = [] /\ u_err whole = None.
 Proof. vm_compute. repeat split; reflexivity. Qed.
 
+(* non-vacuity of C04_prompt on a PROPER prefix: after 20 of the 34 bytes (two reads of 10) exactly the heartbeat has
+   been delivered - before the second frame's bytes have all arrived - and the five bytes of the unfinished frame are
+   what is kept *)
+Example C04_prompt_example :
+  let s := ex_hb ++ ex_esc in
+  let r := run_unpack [] [firstn 10 s; firstn 10 (skipn 10 s)] [] in
+  concat [firstn 10 s; firstn 10 (skipn 10 s)] ++ skipn 20 s = concat [ex_hb; ex_esc] /\
+  frames_within [ex_hb; ex_esc] 20 = [ex_hb] /\
+  map (fun x => m_id (snd x)) (u_msgs r) = [2] /\ u_hist r = firstn 5 ex_esc /\ u_err r = None.
+Proof. vm_compute. repeat split; reflexivity. Qed.
+
 (* non-vacuity at the reader level: a heartbeat (registered id 2), a frame with the unregistered id 0x0003 and a
    second heartbeat, cut inside the second frame: all three are dispatched in order, the middle one as unsupported *)
 Definition ex_unsup : list N := [126; 0; 3; 0; 0; 1; 35; 69; 103; 137; 1; 0; 2; 137; 126].
